@@ -54,6 +54,9 @@ func (s *verifStore) UpdateTask(ctx context.Context, id platform.ID, upd taskmod
 	if upd.Flux != nil {
 		t.Cron = *upd.Flux
 	}
+	if off, ok := upd.Metadata["verif_offset"]; ok { // harness convention: the new offset option
+		t.Offset = off.(time.Duration)
+	}
 	c := *t
 	return &c, nil
 }
@@ -68,11 +71,13 @@ func (s *verifStore) DeleteTask(ctx context.Context, id platform.ID) error {
 
 // recording scheduler: what would run, with which schedule
 type verifSched struct {
-	cron map[scheduler.ID]string
+	cron   map[scheduler.ID]string
+	offset map[scheduler.ID]time.Duration
 }
 
 func (s *verifSched) Schedule(t scheduler.Schedulable) error {
 	s.cron[t.ID()] = t.(SchedulableTask).Task.EffectiveCron()
+	s.offset[t.ID()] = t.Offset()
 	return nil
 }
 
@@ -101,6 +106,7 @@ func verifInvariant(st *verifStore, sc *verifSched, label string) {
 		vrt.Assert(scheduled == want, label+": scheduled exactly when the task exists and is active")
 		if scheduled && want {
 			vrt.Assert(cr == t.Cron, label+": scheduled with the task's latest schedule")
+			vrt.Assert(sc.offset[scheduler.ID(id)] == t.Offset, label+": scheduled with the task's latest offset")
 		}
 	}
 }
@@ -110,7 +116,7 @@ func verifInvariant(st *verifStore, sc *verifSched, label string) {
 // task service (create with either status, update status and/or schedule, delete). Post: invariant.
 func VerifC25_Step() {
 	st := &verifStore{tasks: map[platform.ID]*taskmodel.Task{}}
-	sc := &verifSched{cron: map[scheduler.ID]string{}}
+	sc := &verifSched{cron: map[scheduler.ID]string{}, offset: map[scheduler.ID]time.Duration{}}
 	n := vrt.Choose("existing", 0, 2)
 	for i := 1; i <= n; i++ {
 		status := string(taskmodel.TaskActive)
@@ -118,9 +124,11 @@ func VerifC25_Step() {
 			status = string(taskmodel.TaskInactive)
 		}
 		cron := verifCrons[vrt.Choose(vrt.N("pre_cron", i), 0, 1)]
-		st.tasks[platform.ID(i)] = &taskmodel.Task{ID: platform.ID(i), Status: status, Cron: cron}
+		off := time.Duration(vrt.Int64(vrt.N("pre_offset", i)))
+		st.tasks[platform.ID(i)] = &taskmodel.Task{ID: platform.ID(i), Status: status, Cron: cron, Offset: off}
 		if status == string(taskmodel.TaskActive) {
 			sc.cron[scheduler.ID(i)] = cron
+			sc.offset[scheduler.ID(i)] = off
 		}
 	}
 	st.nextID = platform.ID(n)
@@ -157,6 +165,9 @@ func VerifC25_Step() {
 		if vrt.Choose("upd_sched", 0, 1) == 1 {
 			c := verifCrons[vrt.Choose("upd_cron", 0, 1)]
 			upd.Flux = &c
+		}
+		if vrt.Choose("upd_offset", 0, 1) == 1 {
+			upd.Metadata = map[string]interface{}{"verif_offset": time.Duration(vrt.Int64("new_offset"))}
 		}
 		_, err := svc.UpdateTask(ctx, id, upd)
 		vrt.Assert(err == nil, "update: succeeds")
